@@ -249,6 +249,8 @@ func (sr *ServiceRouter) updateRoutes(desc *bridgedesc.Target) {
 
 	// Handle current routes
 	for i := range desc.Services {
+		verifhook.Point("service.update.addIter", desc.Name)
+
 		svc := &desc.Services[i]
 
 		// Add new routes
@@ -300,6 +302,7 @@ func (sr *ServiceRouter) updateRoutes(desc *bridgedesc.Target) {
 		if _, ok := presentSvcRoutes[route]; !ok {
 			sr.logger.Debug("removing route", "target", desc.Name, "service", route)
 			sr.release(route)
+			verifhook.Point("service.update.delIter", desc.Name)
 		}
 	}
 
@@ -364,6 +367,7 @@ func (sr *ServiceRouter) removeTarget(target string) {
 
 	for _, route := range routes {
 		sr.release(route)
+		verifhook.Point("service.remove.iter", target)
 	}
 
 	delete(sr.svcRoutes, target)
